@@ -1,5 +1,5 @@
 """C06 block-local variables never outlive their block."""
-REG_DRAFT = dict(
+REG = dict(
     engine='E1-enum',
     technique='bounded-exhaustive enumeration of block nestings x exit statement x probe position x probed name, executed on the real interpreter (whole programs and two-request sessions), compared with a scope model taken from the statement and with the fall-through variant of the same shape',
     text="Every nesting of depth <=3 (quick) / <=4 (thorough) over the block kinds {while body, for body, if-then, else, match arm with braces, match arm without braces, function body, closure body}, with fall-through / break / continue / return at the innermost level wherever the exit is meaningful, a variable declared in every block (let, match pattern, for variable) and an outer x shadowed in every block. After the construct (and after every nested construct, so that leaks inside a function frame are seen too) one probe per program reads one name: names of blocks that were left must raise 'No such variable', x must have the value of the block the probe is in, enclosing variables must still be readable; every result is also compared with the fall-through variant of the same nesting. Each case is run as a program and, for the top-level probe, as a session (construct in one request, probe in the next; once with the construct followed by a last expression `0` and once with the construct as the last expression of its request).",
